@@ -422,6 +422,9 @@ func gen(r *lib.RNG) caseT {
 		case x == 2 && i >= 2:
 			// an expression default over an earlier base column; BIGINT so that the value always fits
 			cl.Ty = genTy
+			// nullable: a NULL expression default of a NOT NULL column is an error that INSERT IGNORE does not ignore
+			// and that leaves the earlier tuples of the statement inserted (not triaged here; corpus has the strict case)
+			cl.NotNull = false
 			j := r.Range(1, i-1)
 			if r.Chance(1, 2) {
 				cl.DefExpr = add(col(j), lit(int64(r.Range(1, 5))))
@@ -505,6 +508,11 @@ func gen(r *lib.RNG) caseT {
 			t := types[c.Cols[j].Ty]
 			ck.Op = lib.Pick(r, []string{"Ne", "Lt", "Lt", "Gt"})
 			ck.L, ck.R = col(j), lit(lib.Pick(r, []int64{t.hi, t.lo, 100, 0, 200}))
+			if t.uns {
+				// a literal above 127 is not TINYINT-typed: the comparison with an UNSIGNED column is then done in uint64,
+				// where a negative written value is huge (not modelled)
+				ck.R = lit(lib.Pick(r, []int64{100, 0, 50}))
+			}
 			if ck.Op == "Gt" {
 				ck.R.Z = lib.Pick(r, []int64{t.lo, -10})
 			}
@@ -1422,6 +1430,12 @@ func corpus() []caseT {
 				{K: "insert", Cols: []int{0, 1, 2}, Rows: [][]Raw{{ri(2), ri(3), ri(7)}, {ri(3), ri(5), {K: "def"}}}},
 				{K: "insert", Cols: []int{0, 1}, Rows: [][]Raw{{ri(4), {K: "strf", Z: 36}}}},
 				{K: "update", Sets: []Set{{I: 1, Raw: &Raw{K: "int", Z: 9}}, {I: 2, Raw: &Raw{K: "def"}}}, Where: iptr(1)}}},
+		// a NOT NULL expression default that evaluates to NULL is an error
+		{Cols: []Col{id, i32(Col{}), {Ty: "I64", NotNull: true, DefExpr: add(col(1), lit(1))}},
+			H: []Stmt{{K: "insert", Cols: []int{0, 1}, Rows: [][]Raw{{ri(1), ri(3)}, {ri(2), {K: "null"}}}},
+				{K: "insert", Ignore: true, Cols: []int{0, 1}, Rows: [][]Raw{{ri(3), {K: "null"}}}},
+				{K: "insert", Cols: []int{0, 1}, Rows: [][]Raw{{ri(4), ri(5)}}},
+				{K: "update", Sets: []Set{{I: 1, Raw: &Raw{K: "null"}}, {I: 2, Raw: &Raw{K: "def"}}}, Where: iptr(4)}}},
 		// new finding: no CHECK is enforced on a table with a VIRTUAL generated column (INSERT and UPDATE)
 		{Cols: []Col{id, i32(Col{}), {Ty: "I64", Gen: add(col(1), lit(1)), Virt: true}, {Ty: "I64", Gen: mul(col(2), lit(2))}}, Checks: []Check{{Op: "Lt", L: col(1), R: lit(10)}},
 			H: []Stmt{{K: "insert", Cols: []int{0, 1}, Rows: [][]Raw{{ri(1), ri(3)}}},
